@@ -361,3 +361,121 @@ func TestVerifHHProcStress(t *testing.T) {
 	}
 	vtrace.Done("TestVerifHHProcStress", map[string]interface{}{"rounds": rounds, "delivered": delivered})
 }
+
+// ---- (c) batch bisection (specs/hhqueue/HHSplit.tla) -----------------------------------------------
+
+type vsCase struct {
+	Pts    []int   `json:"pts"`
+	Blocks [][]int `json:"blocks"`
+	Res    string  `json:"res"`
+}
+
+func TestVerifHHSplit(t *testing.T) {
+	var in struct {
+		Cases []vsCase `json:"cases"`
+	}
+	if err := vtrace.LoadJSON(os.Getenv("VERIF_IN"), &in); err != nil {
+		t.Fatalf("input: %v", err)
+	}
+	const unit = 1 << 20
+	const slack = 64 << 10
+	if defaultSegmentSize != 10*unit {
+		vtrace.Out(map[string]interface{}{"k": "error", "detail": "defaultSegmentSize changed; HHSplit constants must follow"})
+		t.Fatalf("defaultSegmentSize = %d", defaultSegmentSize)
+	}
+	pad := make([]byte, 11*unit)
+	for i := range pad {
+		pad[i] = 'x'
+	}
+	for ci, c := range in.Cases {
+		root, _ := os.MkdirTemp(os.Getenv("VERIF_SCRATCH"), "hhsplit")
+		dir := filepath.Join(root, "p")
+		w, m := &vpWriter{}, &vpMeta{active: 1}
+		np := vpNew(dir, w, m)
+		np.MaxSize = 1 << 40
+		if err := np.Open(); err != nil {
+			t.Fatal(err)
+		}
+		var pts []models.Point
+		for k, s := range c.Pts {
+			pts = append(pts, models.MustNewPoint("m", nil, models.Fields{"id": int64(k), "pad": string(pad[:s*unit-slack])}, time.Unix(int64(k), 0)))
+		}
+		err := np.WriteShard(pts)
+		np.Close()
+		res := "ok"
+		if err == ErrSegmentFull {
+			res = "segfull"
+		} else if err != nil {
+			res = "err:" + err.Error()
+		}
+		// read the blocks back from the segment files, in order
+		var blocks [][]int
+		ents, _ := os.ReadDir(dir)
+		var names []int
+		for _, e := range ents {
+			if n := vhSegID(e.Name()); n > 0 {
+				names = append(names, n)
+			}
+		}
+		sort.Ints(names)
+		bad := ""
+		for _, n := range names {
+			b, _ := os.ReadFile(filepath.Join(dir, fmt.Sprint(n)))
+			off := int64(0)
+			for off < int64(len(b))-8 {
+				sz := int64(be64(b[off : off+8]))
+				if sz > defaultSegmentSize {
+					bad = fmt.Sprintf("block of %d bytes exceeds the segment size", sz)
+				}
+				_, raw, uerr := unmarshalWrite(b[off+8 : off+8+sz])
+				if uerr != nil {
+					bad = "undecodable block: " + uerr.Error()
+					break
+				}
+				lo, hi := -1, -1
+				for x, pb := range raw {
+					id := vpPointID(pb)
+					if x == 0 {
+						lo = id
+					} else if id != hi {
+						bad = fmt.Sprintf("points out of order inside a block: %d after %d", id, hi-1)
+					}
+					hi = id + 1
+				}
+				blocks = append(blocks, []int{lo, hi})
+				off += 8 + sz
+			}
+		}
+		os.RemoveAll(root)
+		if ci < 2 {
+			vtrace.Sample(map[string]interface{}{"split_case": c, "real_blocks": blocks, "real_res": res})
+		}
+		same := len(blocks) == len(c.Blocks) && res == c.Res
+		for k := 0; same && k < len(blocks); k++ {
+			same = blocks[k][0] == c.Blocks[k][0] && blocks[k][1] == c.Blocks[k][1]
+		}
+		if bad != "" || !same {
+			// property-level reading of the difference: are all points of an accepted batch queued, once, in order?
+			sig := "note:split:layout"
+			next := 0
+			for _, b := range blocks {
+				if b[0] != next {
+					sig = "split:lost-or-reordered"
+				}
+				next = b[1]
+			}
+			if res == "ok" && next != len(c.Pts) {
+				sig = "split:lost-or-reordered"
+			}
+			if (res == "segfull") != (c.Res == "segfull") {
+				sig = "split:result"
+			}
+			if bad != "" {
+				sig = "split:block"
+			}
+			vtrace.Mismatch(sig, fmt.Sprintf("batch sizes %v (MiB): real blocks %v res=%s %s; model blocks %v res=%s", c.Pts, blocks, res, bad, c.Blocks, c.Res),
+				map[string]interface{}{"test": "SPLIT", "case": c})
+		}
+	}
+	vtrace.Done("TestVerifHHSplit", map[string]interface{}{"cases": len(in.Cases)})
+}
